@@ -534,3 +534,25 @@ func (p *Program) funcByShortName(name string) *ssa.Function {
 	}
 	return nil
 }
+
+// DriverFunc: the function that runs the rules over the input — EvalProgram itself, or the helper
+// split off it (a function only EvalProgram's cluster calls) that contains the per-value Decode call.
+func (p *Program) DriverFunc() *ssa.Function {
+	ep := p.LangFunc("EvalProgram")
+	if ep == nil {
+		return nil
+	}
+	for _, g := range p.privateCluster(ep) {
+		for _, call := range callsIn(g) {
+			if f := call.Common().StaticCallee(); f != nil && f.String() == "(*encoding/json.Decoder).Decode" {
+				return g
+			}
+		}
+	}
+	return ep
+}
+
+// isDriver: fn is EvalProgram or the driver split off it.
+func (p *Program) isDriver(fn *ssa.Function) bool {
+	return fn != nil && (fn == p.LangFunc("EvalProgram") || fn == p.DriverFunc())
+}
